@@ -66,6 +66,34 @@ PROPS = {
         "technique": "online start-iff monitor with scripted gates and injected window clock",
         "jobs": [dict(FSM_JOB)],
     },
+    "C12": {
+        "title": "Sinks see writes only inside start..stop; faults never crash the pipeline",
+        "level": "fault_enumeration",
+        "rule": "Real MotionProcessor with monitor sinks on all three recorder interfaces. Part 1 (fault enumeration): every event sequence of length 1..5 (thorough 7) over {motion frame, frame, bad frame, reset, test-recording request} x 18 small configs "
+                "(max-secs*fps 0..2, trigger-frames 0..2, continuous recorder on/off) x the fault-free run and EVERY single-fault placement (each Start/Write/Stop/CheckCanRecord call of each sink made inside the script fails once). "
+                "Part 2: random scripts (8..400 events) with 1-30% per-call fault rate. Each run is followed by a fault-free recovery suffix. Oracle: per-sink protocol automaton, recovered panics, "
+                "and bounded progress (the suffix's motion burst must start exactly one recording at the expected frame that satisfies the C01-C03 oracles). Distinct by (config, full sink trace).",
+        "assumptions": COMMON_ASSUME + ["StopRecording on a closed sink is not flagged (the property does not forbid it)", "liveness is restated as bounded progress on a fixed fault-free suffix"],
+        "level_text": "Fault enumeration: for every short event sequence the number of sink calls is fixed by a fault-free run and one run per call index injects an error exactly there; every run is judged by protocol automata on the three sinks, panic capture and a recovery check. Random multi-fault scripts extend this to long histories.",
+        "level_note": "Enumeration is complete for sequences up to the stated length on the listed configurations; longer histories and fault combinations are sampled. The real CPTVFileRecorder under real I/O faults is exercised by the pipeline job.",
+        "technique": "protocol-automaton monitors on injected sinks with exhaustive single-fault placement",
+        "jobs": [{"pkg": "motion", "test": "TestVerif_C12", "shards": (16, 16), "timeout": (300, 2400), "require": ["single_fault_runs", "recoveries_checked", "random_faults_injected"]}],
+    },
+    "C17": {
+        "title": "Continuous recorder tiles the stream; a test recording is 21 consecutive frames",
+        "level": "exploration",
+        "rule": "Real MotionProcessor with monitor sinks. Part 1: for max-secs*fps in {0,1,2,5}: a test-recording request at every offset of a stream x a motion burst at ~12 offsets. "
+                "Part 2: seeded random scripts (30..900 events; max-secs*fps in {0,1,2,3,5,6,9,27,180}; resets, optional bad frames, non-overlapping requests, refusals). "
+                "Oracles: continuous files hold consecutive accepted frames, max*fps+1 each, every frame exactly once; request => one recording of the next 21 accepted frames; "
+                "twin runs: continuous/test traces identical when only motion/window/disk/start outcomes differ, motion trace identical with and without requests. "
+                "Non-trivial = at least one continuous file or test recording; distinct by (config, trace).",
+        "assumptions": COMMON_ASSUME + ["requests are non-overlapping (the property's quantifier); bad frames close the current continuous file (the error path), the next frame opens a new one",
+                                        "space-based pruning (deleteExcessRecordings) depends on the real disk and is only exercised by the pipeline job"],
+        "level_text": "Offline trace checker for the continuous and test sinks plus paired-execution comparators (independence from motion, window, gates; motion recording undisturbed by requests), over a request-offset sweep and random scripts.",
+        "level_note": "Throttling independence is structural here (the continuous sink is never wrapped); the pipeline job checks it through main.go's wiring.",
+        "technique": "offline trace checker + paired-execution comparator on monitor sinks",
+        "jobs": [{"pkg": "motion", "test": "TestVerif_C17", "shards": (16, 16), "timeout": (300, 2400), "require": ["continuous_files", "test_recordings_completed", "test_recordings_overlapping_motion_recording"]}],
+    },
     "C19": {
         "title": "Frame ring buffer returns exactly the retained history, oldest first",
         "level": "exploration",
